@@ -702,8 +702,8 @@ open BS.PrettyReparse in
 /-- **`prettify_reparse_tokenized`** — "pretty-printed output re-parses to the same tree as the plain output once whitespace
     inside text is disregarded", with the parser modelled end to end. For every builder/adapter configuration (`CfgOK`, `CfgWs`,
     `EntOK`), `ParamsOK` tokenizer parameters, the 'minimal' formatter, whitespace unit `u`, start level `l`, and every forest
-    `ds` that is `RenderWritable` together with its pretty tree (decidable; `pretty_tree_render_writable` below derives the
-    renderer-side part from `ds` alone): tokenizing `decode(indent_level=l)`'s text (the loop of `Tag.decode` on the real
+    `ds` that is `RenderWritable` together with its pretty tree (both decidable; that the second follows from the first is
+    not proved — see the note after the examples): tokenizing `decode(indent_level=l)`'s text (the loop of `Tag.decode` on the real
     pieces) with the model of CPython's tokenizer and building the tree gives, after `eraseWsL`, the same tree as doing so
     with `decode()`'s text — and that tree is the normal form of `ds`. Elements, nesting, special strings and everything inside
     whitespace-preserving elements are compared exactly; character data elsewhere up to its whitespace characters. -/
@@ -754,6 +754,12 @@ example : BS.PrettyReparse.eraseWsL BS.Props.C04.xB
      .elem (ofS "p") none [.text 0 (ofS "a<b&c"), .elem (ofS "br") none [], .text 1 (ofS " note "),
        .elem (ofS "b") none [.text 0 (ofS "x")], .elem (ofS "i") none []],
      .elem (ofS "pre") none [.text 0 (ofS " \n k "), .elem (ofS "b") none [.text 0 (ofS " y ")]]] := by rfl
+/-! NOT proved: `RenderWritable … ds → RenderWritable … (prettyTreeL u pwt l ds)` (the added strings are whitespace, stripping
+    removes characters only, so it holds; the proof needs `Writable` under `minimalChoices` restated path-independently).
+    Until then `h'` is a separate, decidable hypothesis — evaluated in the example above. Outside `RenderWritable` (script/style,
+    single-quoted values, other formatters, hidden elements, non-whitespace units) the clause rests on the harness stream
+    `reparse-model` (real prettify()/decode() text → real parser vs tokenizer model + builder model, erased trees compared). -/
+
 /-- `preAgreeL` is needed: were `p` whitespace-preserving for the builder only, the added whitespace would survive the erasure -/
 example : BS.PrettyReparse.preAgreeL { BS.Props.C04.xB with preserve := fun n => n == ofS "p" } tkPwt tkForest = false := by decide
 
